@@ -30,7 +30,9 @@ VARIABLES l, sc, cl, cnt, root, viol, drift
 vars == <<l, sc, cl, cnt, root, viol, drift>>
 
 NoSc == [blocks |-> [x \in {} |-> 0], prov |-> [x \in {} |-> 0],
-         cfg |-> [period |-> 0, drift |-> 0, num |-> 1, den |-> 3, mode |-> "skip"]]
+         cfg |-> [period |-> 0, drift |-> 0, num |-> 1, den |-> 3, mode |-> "skip", rollback |-> FALSE]]
+\* level 1 accepts the shipped findNewPrimary and the repaired one (see TMLight!FNPLoop)
+Sc(v) == [sc EXCEPT !.cfg.rollback = v]
 NoCl == [store |-> {}, latest |-> Nil, primary |-> Nil, wits |-> << >>]
 
 Init == /\ l = 1 /\ sc = NoSc /\ cl = NoCl /\ cnt = << >> /\ root = [h |-> 0, hid |-> Nil]
@@ -72,7 +74,9 @@ StepCase(e) ==
 
 \* ------------------------------------------------------------ client runs
 StepReset(e) ==
-  /\ sc' = [blocks |-> e.blocks, prov |-> e.prov, cfg |-> e.cfg]
+  /\ sc' = [blocks |-> e.blocks, prov |-> e.prov,
+            cfg |-> [period |-> e.cfg.period, drift |-> e.cfg.drift, num |-> e.cfg.num, den |-> e.cfg.den,
+                     mode |-> e.cfg.mode, rollback |-> FALSE]]
   /\ cl' = [store |-> {}, latest |-> Nil, primary |-> e.primary, wits |-> e.wits]
   /\ cnt' = [n \in DOMAIN e.prov |-> [i \in 1..Len(e.prov[n]) |-> 0]]
   /\ root' = e.root
@@ -127,8 +131,10 @@ Install(e) ==
   /\ cnt' = Count(cnt, e.obs, 1)
 
 StepNewClient(e) ==
-  LET pred(s) == InitClient(sc, cl.primary, cl.wits, cnt, root.h, root.hid, s)
-      ok == (\E s \in Scheds1 : Matches(pred(s), e)) \/ (\E s \in Scheds2 : Matches(pred(s), e))
+  LET predv(s, v) == InitClient(Sc(v), cl.primary, cl.wits, cnt, root.h, root.hid, s)
+      pred(s) == predv(s, FALSE)
+      ok == \/ \E s \in Scheds1 : Matches(pred(s), e) \/ Matches(predv(s, TRUE), e)
+            \/ \E s \in Scheds2 : Matches(pred(s), e) \/ Matches(predv(s, TRUE), e)
       ids == Range(e.post.store) IN
   /\ drift' = drift \cup FailIf(~ok, Drift("NewClient: no reply schedule of the specification reproduces the observed call",
                                            pred(<<e.sched>>).res))
@@ -145,9 +151,11 @@ StoredHow(pre, hd) ==
   IF sc.blocks[hh].h < MinH(sc, pre) THEN "backwards" ELSE sc.cfg.mode
 
 StepVerify(e) ==
-  LET pred(s) == IF e.ev = "Update" THEN UpdateCall(sc, cl, cnt, e.now, s)
-                 ELSE VerifyAtHeight(sc, cl, cnt, e.h, e.now, s)
-      ok   == (\E s \in Scheds1 : Matches(pred(s), e)) \/ (\E s \in Scheds2 : Matches(pred(s), e))
+  LET predv(s, v) == IF e.ev = "Update" THEN UpdateCall(Sc(v), cl, cnt, e.now, s)
+                     ELSE VerifyAtHeight(Sc(v), cl, cnt, e.h, e.now, s)
+      pred(s) == predv(s, FALSE)
+      ok   == \/ \E s \in Scheds1 : Matches(pred(s), e) \/ Matches(predv(s, TRUE), e)
+              \/ \E s \in Scheds2 : Matches(pred(s), e) \/ Matches(predv(s, TRUE), e)
       pre  == HidsOf(cl.store)
       ids  == Range(e.post.store)
       post == HidsOf(ids)
@@ -158,12 +166,13 @@ StepVerify(e) ==
       \* the specification's runs whose primary phase is the observed one: same requests and
       \* answers before the cross-check, same primary at the end, cross-check reached or not
       hasDet == \E i \in DOMAIN e.obs : e.obs[i].ph = "det"
-      Same(s) == /\ ReqAgree(PriOnly(pred(s).x.reqs), PriOnly(e.obs))
-                 /\ pred(s).x.cl.primary = e.post.primary
-                 /\ (pred(s).x.tr # << >>) = hasDet
-      P1   == {s \in Scheds1 : Same(s)}
-      P    == IF P1 # {} THEN P1 ELSE {s \in Scheds2 : Same(s)}
-      att  == IF hasDet THEN UNION {pred(s).x.att : s \in P} ELSE {}
+      Same(s, v) == /\ ReqAgree(PriOnly(predv(s, v).x.reqs), PriOnly(e.obs))
+                    /\ predv(s, v).x.cl.primary = e.post.primary
+                    /\ (predv(s, v).x.tr # << >>) = hasDet
+      P1   == {sv \in Scheds1 \X BOOLEAN : Same(sv[1], sv[2])}
+      P    == IF P1 # {} THEN P1 ELSE {sv \in Scheds2 \X BOOLEAN : Same(sv[1], sv[2])}
+      att  == IF hasDet THEN UNION {predv(sv[1], sv[2]).x.att : sv \in P} ELSE {}
+      self == SelfConfirmed(sc, pre, post, obs, e.post.primary)
       tos  == {e.evid[i].to : i \in DOMAIN e.evid} IN
   /\ drift' = drift \cup FailIf(~ok, Drift(e.ev \o ": no reply schedule of the specification reproduces the observed call",
                                            pred(<<e.sched>>).res))
@@ -171,6 +180,7 @@ StepVerify(e) ==
        \cup FailIf(\E b \in ids : b \notin DOMAIN sc.blocks, Viol("StoreSound", "unknown_block_stored"))
        \cup FailIf(uns # {}, Viol("StoreSound", IF uns = {} THEN "-" ELSE StoredHow(pre, CHOOSE hd \in uns : TRUE)))
        \cup FailIf(unc # {}, Viol("WitnessConfirmed", IF \E i \in DOMAIN obs : obs[i].ph = "det" THEN "cross_check_ran" ELSE "no_cross_check"))
+       \cup FailIf(self # {}, Viol("WitnessConfirmed", "only_confirmed_by_the_primary_itself"))
        \cup FailIf(unc # {} /\ sil # {}, Viol("NoConfirmationFromSilence", "silent_witness"))
        \cup FailIf(unc # {} /\ \E i \in DetResponses(obs, e.post.primary) : IsBlk(sc, obs[i].r),
                    Viol("NoConfirmationFromSilence", "different_header"))
